@@ -89,6 +89,8 @@ type Node struct {
 	MasterOf   *Node // nil for masters
 	store      *Store
 	Silent     bool // reads commands but never answers
+	// Hides: nodes this node does not know (yet): they are missing from its CLUSTER NODES answer (a partial view).
+	Hides []*Node
 	// ResetNextConn: the next accepted connection is reset at once (the node is restarting), then the flag clears.
 	ResetNextConn bool
 	Down          bool
@@ -475,6 +477,15 @@ func (c *Cluster) NodesText(self *Node) string {
 	}
 	var b strings.Builder
 	for _, n := range c.Nodes {
+		hidden := false
+		if self != nil {
+			for _, h := range self.Hides {
+				hidden = hidden || h == n
+			}
+		}
+		if hidden {
+			continue
+		}
 		flags := "master"
 		master := "-"
 		if n.MasterOf != nil {
